@@ -77,7 +77,7 @@ CHECKS = {
                 technique="TLA+ text-form model (TLC) + trace validation of serde/text round trips (TextTrace.tla)"),
     "C18": dict(level="model_checking", ref="§4 C18, §2.4",
                 text="TLC checks SharedString.tla for every interleaving of 3-4 threads (DataIntact, Dedup, EmptyAtQuiescence, deadlock freedom, liveness of the release window); every maximal interleaving of the 2-thread model is executed by real threads parked by hook H1 and validated step by step with the complete intern-table state; barrier snapshots of free-running threads must satisfy all invariants, and a pair phase (the only two holders of a content drop simultaneously, 150 000 times) must never leave a table entry behind.",
-                note="Trusted: hook H1 placement (between Arc::into_inner and the table lock), TLC, thread/op bounds of the model; Arc internals are not modelled below the strong count. A burst phase (all threads intern the same fresh content at once and compare buffers) and a pair-drop phase make the Dedup / TableLive observations independent of scheduling luck.",
+                note="Trusted: hook H1 placement (between Arc::into_inner and the table lock), TLC, thread/op bounds of the model; Arc internals are not modelled below the strong count. A burst phase (all threads intern the same fresh content at once and compare buffers), a churn phase (a second handle made while the partner's last releases of that content race with it) and a pair-drop phase make the Dedup / TableLive observations independent of scheduling luck.",
                 technique="TLA+ spec SharedString.tla + TLC + deterministic schedule replay on real threads + trace validation"),
 }
 
